@@ -815,6 +815,8 @@ func runC03(c *Ctx) {
 	ruleExceptionChain(c, p, "C03.exception-chain")
 	ruleResetComplete(c, p, "C03.reset-clears")
 	ruleAdopt(c, p, "C03.adopt")
+	ruleOpenCodes(c, p, "C03.open-codes")
+	ruleInferTables(c, p, "C03")
 	if rr := resolveDo(c, p); rr != nil {
 		ruleRetry(c, p, rr, "C03.retry")
 	}
